@@ -2047,6 +2047,11 @@ class Spectrum(numpy.ma.masked_array):
                 fs = Spectrum._from_phi_5D_linalg(ns[0], ns[1], ns[2], ns[3], ns[4],
                                                   xxs[0], xxs[1], xxs[2], xxs[3], xxs[4],
                                                   phi, mask_corners)
+            else:
+                raise NotImplementedError('For five populations, only the default '
+                                          'calculation is implemented; '
+                                          'het_ascertained, admix_props and '
+                                          'force_direct are not supported.')
         else:
             raise ValueError('Only implemented for dimensions 1-5.')
         fs.pop_ids = pop_ids
